@@ -314,7 +314,11 @@ class Ephem(Speaker):
             Ephem:
         """
 
-        return self.__class__(self.ephemeris(*args, **kwargs))
+        # the new ephemeris interpolates the same way as this one (copy() relies on
+        # this method, and used to hand back an ephemeris with the default settings)
+        return self.__class__(
+            self.ephemeris(*args, **kwargs), method=self.method, order=self.order
+        )
 
     def copy(self, *, form=None, frame=None, same=None):  # pragma: no cover
         """Create a deep copy of the ephemeris. Optionally, allow frame and form changing
